@@ -1,4 +1,5 @@
 import GS.Generated.PanicSites
+import GS.Generated.PanicHandler
 /-!
 # Panics in per-request code (property C22)
 
@@ -16,6 +17,10 @@ unwinds that goroutine's stack and
 
 Which call sites have a recover frame is not modelled by hand: it is the generated table
 `GS.Generated.PanicSites.table` (translator `translate/panicsites`), read here through `framesOf`.
+What a recover frame does with the recovered value is not modelled by hand either: it is the
+statement list of `panics.MakeHandler`, `GS.Generated.PanicHandler.steps` (translator
+`translate/panichandler`), interpreted by `runHandler`; `stepReq` takes the outcome of a recovered
+panic from it (`handled`).
 
 A request is the script of user-function calls its execution makes, in order (one group of calls
 per block); a call returns normally, returns an error, or panics.  A system is a list of requests
@@ -61,6 +66,54 @@ inductive Eff
   | crash                                     -- unrecovered panic: the process dies
   deriving DecidableEq, Repr
 
+/-! ## The panic handler (`panics.MakeHandler`), interpreted from its generated statement list
+
+The handler is polymorphic in the panic value (`α`): no statement of the vocabulary can inspect it.
+`none` stands for Go's `recover()` returning nil (no panic). -/
+
+/-- what the handler returns -/
+inductive HRet (α : Type)
+  | fellThrough                      -- ran off the end (not expressible in Go; kept for totality)
+  | nil                              -- `return nil`: no error for the request
+  | recovered (obj : Option α)       -- `RecoveredPanicErr{PanicObj: obj, …}`
+  | nilCallback                      -- called a nil callback: the handler itself panics
+  deriving DecidableEq, Repr
+
+structure HOut (α : Type) where
+  ret : HRet α
+  cbs : List (Option α)              -- callback invocations, with the object passed
+  deriving DecidableEq, Repr
+
+open GS.Generated.PanicHandler (Step) in
+def runSteps {α : Type} (cbSet : Bool) (v : Option α) : List Step → List (Option α) → HOut α
+  | [], cbs => { ret := .fellThrough, cbs := cbs }
+  | .returnNilIfNil :: rest, cbs =>
+    match v with
+    | none => { ret := .nil, cbs := cbs }
+    | some _ => runSteps cbSet v rest cbs
+  | .captureStack :: rest, cbs => runSteps cbSet v rest cbs
+  | .callbackIfSet :: rest, cbs => runSteps cbSet v rest (if cbSet then cbs ++ [v] else cbs)
+  | .callback :: rest, cbs =>
+    if cbSet then runSteps cbSet v rest (cbs ++ [v]) else { ret := .nilCallback, cbs := cbs }
+  | .returnNil :: _, cbs => { ret := .nil, cbs := cbs }
+  | .returnRecovered :: _, cbs => { ret := .recovered v, cbs := cbs }
+
+/-- `panics.MakeHandler(cb)(v)` as the source has it now -/
+def runHandler {α : Type} (cbSet : Bool) (v : Option α) : HOut α :=
+  runSteps cbSet v GS.Generated.PanicHandler.steps []
+
+/-- what a recover frame makes of a panic raised by the call (side, kind): the request's outcome and
+the effect on the callback log (the harness and every theorem have a callback configured) -/
+def handled (sd : Side) (k : Kind) : Outcome × Eff :=
+  let o := runHandler true (some (sd, k))
+  (match o.ret with
+   | .recovered (some (s, k')) => .panicErr s k'
+   | .nil => .completed            -- the panic would be swallowed: the request looks successful
+   | _ => .failed,
+   match o.cbs with
+   | [some (s, k')] => .cb s k'
+   | _ => .none)
+
 /-- one step of one request: make its next call -/
 def stepReq (fr : Frames) (r : Req) : Req × Eff :=
   match r.out with
@@ -72,7 +125,7 @@ def stepReq (fr : Frames) (r : Req) : Req × Eff :=
       | .ok => ({ script := rest, out := .running }, .none)
       | .err => ({ script := [], out := .failed }, .none)
       | .panic =>
-        if fr c.side c.kind then ({ script := [], out := .panicErr c.side c.kind }, .cb c.side c.kind)
+        if fr c.side c.kind then ({ script := [], out := (handled c.side c.kind).1 }, (handled c.side c.kind).2)
         else (r, .crash)
   | _ => (r, .none)
 
@@ -198,6 +251,7 @@ structure Prediction where
   fired    : Bool
   err      : String
   cb       : Nat
+  valOK    : Bool      -- callback(s) and error carry the value of exactly the injected call
   sibling  : Bool
 
 /-- what the harness should observe for `inject side kind k n pre`: request 0 is the target,
@@ -223,6 +277,8 @@ def predict (t : List Site) (sd : Side) (kd : Kind) (k n pre : Nat) : Prediction
     | .running => "hang"
   { survived := !s.crashed, fired := fired, err := err,
     cb := (s.cbLog.filter (fun e => e.1 == 0)).length,
+    valOK := (s.cbLog.filter (fun e => e.1 == 0)).all (fun e => sideEq e.2.1 sd && kindEq e.2.2 kd)
+              && (match tout with | .panicErr s' k' => sideEq s' sd && kindEq k' kd | _ => true),
     sibling := !s.crashed && done 1 && done 2 }
 
 end GS.Panics
